@@ -17,7 +17,7 @@ RULE = ("'fn' cases: each of the 16 public unit-scaled functions with seeded sha
         "are compared; the Dynamo counters must show a captured graph (otherwise the comparison would be eager-vs-eager). fx: "
         "symbolic_trace + GraphModule forward values for every function that traces; the library's leaf-wrapping tracer "
         "(_DeepTracer) for outputs and gradients of compositions. Non-trivial = forward and backward scale factors differ somewhere "
-        "or a constraint is active; distinct = (function/composition signature, dtype, backend). A third of the cases run an eager no_grad / inference_mode pass first.")
+        "or a constraint is active; distinct = (function/composition signature, dtype, backend). A third of the cases run an eager no_grad / inference_mode pass first. A bfloat16 slice covers every op (add with equal-shape operands); half of the gradients are taken with backward() and read from the .grad fields.")
 ASSUMPTIONS = ["eager execution is the reference", "Inductor may reorder reductions: float tolerance; aot_eager expected bit-identical (4 ulp allowed)"]
 IMPORTS = ["unit_scaling.scale", "unit_scaling.functional", "unit_scaling.parameter", "unit_scaling.utils", "unit_scaling._modules"]
 REQUIRED_MONITORS = ["compiled:cases", "compiled:graphs-captured", "compiled:outputs-compared", "compiled:grads-compared", "fx:traced-functions",
@@ -50,6 +50,24 @@ def gen_cases(tier: str, seed: int) -> List[Dict[str, Any]]:
         cons = op.constraints()
         cases.append({"kind": "fn", "fn": fn, "cfg": cfg, "constraint": rng.choice(cons), "dtype": rng.choice(["float32", "float32", "float64", "bfloat16"]),
                       "backend": "aot_eager", "fx": True, "seed": derive_seed(seed, PROPERTY, "fn", i) % (2**31)})
+    # 16-bit slice: every op in bfloat16, `add` with two equal-shape tensor operands (autograd hands ONE gradient tensor object to
+    # both operands there: a backward that works in place on 16-bit gradients shows only in this form)
+    for i in range(len(names) * (1 if q else 12)):
+        rng = rng_for(seed, PROPERTY, "fn16", i)
+        fn = names[i % len(names)]
+        op = OPS[fn]
+        cfg = op.gen(rng)
+        if fn == "add":
+            for _ in range(200):
+                if cfg["mode"] == "same":
+                    break
+                cfg = op.gen(rng)
+        if fn == "dropout":
+            cfg["p"], cfg["training"] = 0.0, True
+        if fn == "scaled_dot_product_attention":
+            cfg["dropout_p"] = 0.0
+        cases.append({"kind": "fn", "fn": fn, "cfg": cfg, "constraint": rng.choice(op.constraints()), "dtype": "bfloat16",
+                      "backend": "aot_eager", "fx": False, "seed": derive_seed(seed, PROPERTY, "fn16", i) % (2**31)})
     n_comp = 88 if q else 2100
     for i in range(n_comp):
         rng = rng_for(seed, PROPERTY, "comp", i)
@@ -228,7 +246,22 @@ def run_fn(case, ctx) -> None:
         ctx.skip("eager raises")
         return
     up = torch.randn(ye.shape, generator=gen, dtype=torch.float64).to(ye.dtype)
-    ge = torch.autograd.grad(ye, [t for t in le if t.requires_grad], up, allow_unused=True) if ye.requires_grad else []
+    # half of the cases take gradients the way a training loop does (`y.backward(g)` + the leaves' `.grad` fields: AccumulateGrad
+    # copies or steals what the backward nodes hand it, so a backward that works in place on a shared gradient tensor shows here
+    # and not with `autograd.grad`, which captures the one mutated tensor object for both operands)
+    via_backward = case["seed"] % 2 == 0
+
+    def grads_of(y, ls):
+        req = [t for t in ls if t.requires_grad]
+        if not y.requires_grad:
+            return []
+        if via_backward and all(t.is_leaf for t in req):
+            ctx.count("grads:via-backward-and-grad-fields")
+            y.backward(up.clone())
+            return [t.grad for t in req]
+        return torch.autograd.grad(y, req, up, allow_unused=True)
+
+    ge = grads_of(ye, le)
     torch._dynamo.reset()
     torch._dynamo.utils.counters.clear()
     lc = leaves()
@@ -237,7 +270,7 @@ def run_fn(case, ctx) -> None:
         cf = torch.compile(f, backend=backend)
         torch.manual_seed(0)
         yc = cf(*lc)
-        gc = torch.autograd.grad(yc, [t for t in lc if t.requires_grad], up, allow_unused=True) if yc.requires_grad else []
+        gc = grads_of(yc, lc)
     except Exception as e:
         if _dynamo_internal(e):
             ctx.count("excluded:torchdynamo-internal-error")
